@@ -20,12 +20,15 @@ import (
 	"strings"
 	"unsafe"
 
+	"github.com/hashicorp/hcl-lang/lang"
 	"github.com/hashicorp/hcl/v2"
 	"github.com/zclconf/go-cty/cty"
 )
 
 type RangeRec struct {
-	Tag string
+	// Path the range is reported for ("" = the path of the query)
+	Path string
+	Tag  string
 	R   hcl.Range
 	// IsPos: only Start is meaningful (an hcl.Pos field)
 	IsPos bool
@@ -39,6 +42,9 @@ type canonOpts struct {
 	InlineRanges bool
 	// SortSlicesOf: type names whose slices are rendered as multisets
 	MultisetTypes map[string]bool
+	// QueryPathFields: "TypeName.Field" whose ranges belong to the path of the query
+	// even though the struct carries a Path of its own
+	QueryPathFields map[string]bool
 }
 
 type canoner struct {
@@ -46,6 +52,7 @@ type canoner struct {
 	sb      strings.Builder
 	ranges  []RangeRec
 	onStack map[uintptr]bool
+	curPath string
 }
 
 var (
@@ -53,6 +60,7 @@ var (
 	tPos      = reflect.TypeOf(hcl.Pos{})
 	tCtyType  = reflect.TypeOf(cty.Type{})
 	tCtyValue = reflect.TypeOf(cty.Value{})
+	tLangPath = reflect.TypeOf(lang.Path{})
 )
 
 func canonValue(v interface{}, opts canonOpts) (string, []RangeRec) {
@@ -103,7 +111,7 @@ func (c *canoner) walk(v reflect.Value, tag string) {
 		if c.opts.InlineRanges {
 			c.sb.WriteString(fmtRange(r))
 		} else {
-			c.ranges = append(c.ranges, RangeRec{Tag: tag, R: r})
+			c.ranges = append(c.ranges, RangeRec{Path: c.curPath, Tag: tag, R: r})
 			c.sb.WriteString("R")
 		}
 		return
@@ -112,7 +120,7 @@ func (c *canoner) walk(v reflect.Value, tag string) {
 		if c.opts.InlineRanges {
 			c.sb.WriteString(fmt.Sprintf("%d,%d,%d", p.Byte, p.Line, p.Column))
 		} else {
-			c.ranges = append(c.ranges, RangeRec{Tag: tag, R: hcl.Range{Start: p, End: p}, IsPos: true})
+			c.ranges = append(c.ranges, RangeRec{Path: c.curPath, Tag: tag, R: hcl.Range{Start: p, End: p}, IsPos: true})
 			c.sb.WriteString("P")
 		}
 		return
@@ -173,15 +181,29 @@ func (c *canoner) walk(v reflect.Value, tag string) {
 	case reflect.Struct:
 		tn := t.Name()
 		c.sb.WriteString(tn + "{")
+		saved := c.curPath
+		own := saved
+		for i := 0; i < v.NumField(); i++ {
+			f := t.Field(i)
+			if (f.Name == "Path" || f.Name == "path") && f.Type == tLangPath {
+				own = exported(v.Field(i)).Interface().(lang.Path).Path
+			}
+		}
 		for i := 0; i < v.NumField(); i++ {
 			f := t.Field(i)
 			if c.opts.SkipFields[tn+"."+f.Name] {
 				continue
 			}
+			if c.opts.QueryPathFields[tn+"."+f.Name] {
+				c.curPath = saved
+			} else {
+				c.curPath = own
+			}
 			c.sb.WriteString(f.Name + ":")
 			c.walk(v.Field(i), tag+"."+f.Name)
 			c.sb.WriteString(";")
 		}
+		c.curPath = saved
 		c.sb.WriteString("}")
 	case reflect.Slice, reflect.Array:
 		if v.Kind() == reflect.Slice && v.IsNil() {
@@ -201,13 +223,13 @@ func (c *canoner) walk(v reflect.Value, tag string) {
 			// render each element separately, sort
 			parts := make([]string, v.Len())
 			for i := 0; i < v.Len(); i++ {
-				sub := &canoner{opts: c.opts, onStack: c.onStack}
+				sub := &canoner{opts: c.opts, onStack: c.onStack, curPath: c.curPath}
 				sub.opts.InlineRanges = true
 				sub.walk(v.Index(i), tag)
 				parts[i] = sub.sb.String()
 				// still collect ranges for C02
 				if !c.opts.InlineRanges {
-					sub2 := &canoner{opts: c.opts, onStack: c.onStack}
+					sub2 := &canoner{opts: c.opts, onStack: c.onStack, curPath: c.curPath}
 					sub2.walk(v.Index(i), tag+"[]")
 					c.ranges = append(c.ranges, sub2.ranges...)
 				}
@@ -236,7 +258,7 @@ func (c *canoner) walk(v reflect.Value, tag string) {
 		var kvs []kv
 		iter := v.MapRange()
 		for iter.Next() {
-			sub := &canoner{opts: c.opts, onStack: c.onStack}
+			sub := &canoner{opts: c.opts, onStack: c.onStack, curPath: c.curPath}
 			sub.opts.InlineRanges = true
 			sub.walk(addressable(iter.Key()), tag)
 			kvs = append(kvs, kv{sub.sb.String(), iter.Value()})
